@@ -19,7 +19,7 @@ PROPERTY = "C18"
 LEVEL = "exploration"
 RULE = ("operation sequences (up to 40) over a pool seeded with a single- or multi-residue molecule built from a spec, "
         "the molecules handed out by a System for a generated file, and the molecules stored by an Alignment: copy, "
-        "deep_copy, copy / deep_copy / Molecule() with the residues of another pooled molecule, residue / atom views (indexing and iteration), Molecule.atoms / Residue.atoms copies, move, move_to, "
+        "deep_copy, copy / deep_copy / Molecule() with the residues of another pooled molecule, residue / atom views (indexing with non-negative and negative indices, iteration), Molecule.atoms / Residue.atoms copies, move, move_to, "
         "rotate, assignment of positions, velocities (array or None), atom numbers, residue numbers, names (deep copies "
         "and unshared originals), assignment through views, assignment of a position read from another object, one "
         "array assigned to two objects. Non-trivial = a copy followed by operations on both the copy and its source on a "
@@ -286,10 +286,11 @@ def check(case):
                 pool.append(Entry(o.residues[k], "res", list(e.groups[k]), owner=ei))
             elif kind == "view_atom" and e.kind in ("mol", "res") and len(pool) < 14:
                 j = b % len(e.cells)
+                jj = j - len(e.cells) if flag else j          # the same atom through a negative index
                 if e.kind == "mol":
-                    pool.append(Entry(o[j], "atom", [e.cells[j]], top_group=e.top_group, owner=ei))
+                    pool.append(Entry(lib("index", o.__getitem__, jj), "atom", [e.cells[j]], top_group=e.top_group, owner=ei))
                 else:
-                    pool.append(Entry(o[j], "agro", [e.cells[j]], owner=e.owner if e.owner is not None else ei))
+                    pool.append(Entry(lib("index", o.__getitem__, jj), "agro", [e.cells[j]], owner=e.owner if e.owner is not None else ei))
             elif kind in ("move", "move_to", "rotate") and e.kind in ("mol", "res"):
                 P = np.array([model.cells[c]["pos"] for c in e.cells])
                 com = P.mean(axis=0)
@@ -397,7 +398,7 @@ def check(case):
             elif kind in ("atom_set", "iter_set") and e.kind in ("mol", "res"):
                 j = b % len(e.cells)
                 if kind == "atom_set":
-                    view = o[j]
+                    view = lib("index", o.__getitem__, j - len(e.cells) if flag else j)
                 else:
                     view = [x for x in o][j]
                 if field == "pos":
@@ -453,7 +454,7 @@ def check(case):
             elif kind == "inplace":
                 # element-wise modification through a live view (atom.position[k] += d)
                 j = b % len(e.cells)
-                view = o if e.kind in ("agro", "atom") else o[j]
+                view = o if e.kind in ("agro", "atom") else lib("index", o.__getitem__, j - len(e.cells) if flag else j)
                 if e.kind in ("agro", "atom"):
                     j = 0
                 c = e.cells[j]
